@@ -8,7 +8,7 @@
                every expected sample present, no other sample under any known metric name. *)
 From Coq Require Import List ZArith Bool.
 From Coq Require Export Uint63.
-Require Export MTX.Model.C36_Metrics MTX.Model.C36_Sections.
+Require Export MTX.Model.C36_Metrics MTX.Model.C36_Sections MTX.Model.C36_Concurrent.
 Import ListNotations.
 Local Open Scope Z_scope.
 
@@ -56,15 +56,25 @@ Definition tags_eqb (a b : option (list label)) : bool :=
   | _, _ => false
   end.
 
+Fixpoint obodies_eqb (a : list (option bytes)) (b : list bytes) : bool :=
+  match a, b with
+  | [], [] => true
+  | Some x :: a', y :: b' => beqb x y && obodies_eqb a' b'
+  | _, _ => false
+  end.
+
 (* model vs implementation: the whole body; and the shipped float tokens satisfy the theorem's hypothesis *)
 Definition mismatch (c : case) : bool :=
   match c with
   | Scrape paths fwd srv q body _ _ =>
       let st := mk_state paths fwd srv in negb (beqb body (body_of st q)) || negb (wf_stateb st)
   | Overlap paths fwd srv _ reqs sched =>
+      (* the model of concurrent scrapes (per-request buffer) run under the shipped schedule, then completed: every
+         request must have received exactly the body the model gives it *)
       let st := mk_state paths fwd srv in
+      let qs := map (fun r => fst (fst r)) reqs in
       negb (wf_stateb st)
-      || existsb (fun r => negb (beqb (snd (fst r)) (body_of st (fst (fst r))))) reqs
+      || negb (obodies_eqb (CC.overlapped_bodies CC.PerRequest st qs (map Z.to_nat sched)) (map (fun r => snd (fst r)) reqs))
   end.
 
 Definition val_tok (v : val) : bytes := match v with VI z => format_int z | VT t => t end.
